@@ -771,12 +771,18 @@ fn check_rekey(cx: &mut Ctx<'_>, rng: &mut Rng) {
                     continue;
                 }
             };
-            let changed = out.channels != cx.canon.channels || out.errors != cx.canon.errors;
+            // only the re-keyed channel is judged here; order effects on the other channels are the order check's business
+            let chan_id = set.channels[ci].0;
+            let pick = |o: &Out| {
+                (o.channels.iter().find(|(c, _)| *c == chan_id).map(|(_, d)| d.clone()),
+                 o.errors.iter().find(|(c, _, _)| *c == chan_id).cloned())
+            };
+            let changed = pick(&out) != pick(&cx.canon);
             if pol.commutative() {
                 cx.rep.count("rekeyings_commutative_checked", 1);
                 cx.rep.count(&format!("rekeyings_{}", pol.label()), 1);
                 if changed {
-                    let (field, p2) = diff_field(set, &cx.canon, &out).unwrap_or(("?".into(), "?".into()));
+                    let (field, p2) = ("channel-bytes".to_owned(), pol.label().to_owned());
                     viol(
                         cx.rep,
                         &format!("C18:rekey-dependence:{}:{field}", pol.label()),
@@ -883,9 +889,11 @@ fn check_duplicates(cx: &mut Ctx<'_>, rng: &mut Rng) {
             match observe(&bus, set, variant) {
                 Ok(out) => {
                     if let Some((field, p2)) = diff_field(set, &cx.canon, &out) {
-                        viol(cx.rep, &format!("C18:duplicate:merged:{}:{field}", pol.label()),
-                            &format!("result after a rejected/accepted duplicate differs from the duplicate-free run (first differing channel policy {p2}); expected={} got={}",
-                                cx.canon.to_json(), out.to_json()),
+                        // labelled by the policy of the channel that actually differs (a true merge shows up on the
+                        // duplicate's own channel; a difference elsewhere is order dependence surfacing in this run)
+                        viol(cx.rep, &format!("C18:duplicate:merged:{p2}:{field}"),
+                            &format!("result after a rejected/accepted duplicate on a {} channel differs from the duplicate-free run (first differing channel policy {p2}); expected={} got={}",
+                                pol.label(), cx.canon.to_json(), out.to_json()),
                             set, cx.case, replay);
                     }
                 }
